@@ -648,6 +648,10 @@ def _peak_factors(covs, means, ix, covmat, x):
     return out
 
 
+class _GiveUp(Exception):
+    pass
+
+
 def corr_sampler(ctx, B):
     """BosonicModes.measure_dyne on multi-peak states (negative weights included) with the generator scripted: peak
     choice probabilities, proposal parameters, every accept / reject decision of the rejection loop, and the state update
@@ -662,13 +666,13 @@ def corr_sampler(ctx, B):
         w0 = np.array([rng.randint(1, 6) for _ in range(nc)], dtype=float)
         if rng.random() < 0.7:
             j = rng.randrange(1, nc)
-            w0[j] = -w0[j] / 4            # a negative-weight peak (cat / Fock-like states)
+            w0[j] = -w0[j] / 2            # a negative-weight peak (cat / Fock-like states)
         w0 = w0 / w0.sum()
         mode = rng.randrange(n)
         covmat = m6.rand_cov(rng, 2) if it % 2 else np.eye(2)
         ix = [2 * mode, 2 * mode + 1]
         offs = [np.array([m6.dy(rng, -8, 8, 4), m6.dy(rng, -8, 8, 4)]) for _ in range(4)]
-        us = [rng.choice([0.97, 0.6, 0.3]), rng.choice([0.9, 0.45]), 0.0]
+        us = [rng.choice([0.995, 0.9, 0.5]), rng.choice([0.95, 0.45]), 0.0]
         picks = [rng.randrange(8) for _ in range(8)]
         b = BosonicModes(n)
         b.weights, b.means, b.covs = w0.astype(complex), means.astype(complex), covs.astype(complex)
@@ -679,6 +683,8 @@ def corr_sampler(ctx, B):
             return v
 
         def mvn(mean, cov, offs=offs, counter=counter):
+            if counter["k"] >= 10:
+                raise _GiveUp()                  # the scripted points never reach positive target density
             v = mean + offs[counter["k"] % len(offs)]
             counter["k"] += 1
             return v
@@ -689,6 +695,9 @@ def corr_sampler(ctx, B):
         try:
             with sr:
                 ret = b.measure_dyne(covmat.copy(), [mode], shots=1)
+        except _GiveUp:
+            ctx.tally("sampler:gave-up")
+            continue
         except Exception as e:  # noqa: BLE001
             ctx.corr_cases += 1
             ctx.disagree("Measure.accept vs BosonicModes.measure_dyne", case, "a sample", f"raised {type(e).__name__}: {e}")
@@ -1167,21 +1176,27 @@ def oracle_fock_case(ctx, sf, case):
     """MeasureFock on the Fock back end, measured modes in any order: with `select`, the post state is the
     projection on exactly those photon numbers; without, the generator is scripted: the probability with which the
     returned outcome was drawn is its Born probability, and the post state is the projection on the returned outcome"""
-    n, D, regs, pure = case["n"], case["cutoff"], case["regs"], case["pure"]
+    n, D, pure = case["n"], case["cutoff"], case["pure"]
     pre = dict(n=n, ops=case["prefix"])
     _, rho0, _ = _fock_state_of(sf, pre, D, pure)
+    # register with holes: the state object lists the live modes in ascending order
+    alive = [m for m in range(n) if m not in case.get("deleted", [])]
+    posn = {m: alive.index(m) for m in alive}
+    true_regs = case["regs"]
+    regs = [posn[m] for m in true_regs]            # positions in the returned state, used by the reference projection
+    n = len(alive)
     rp = dict(kind="fock", case=case)
     ctx.oracle_cases += 1
     if case.get("select") is not None:
         sel = case["select"]
         want, p = m6.fock_project(rho0, n, dict(zip(regs, sel)))
-        spec = dict(n=n, ops=case["prefix"] + [dict(cls="MeasureFock", regs=regs, pars=[], select=sel)])
+        spec = dict(n=case["n"], ops=case["prefix"] + [dict(cls="MeasureFock", regs=true_regs, pars=[], select=sel)])
         if p < 1e-9:
             return
         res, rho1, _ = _fock_state_of(sf, spec, D, pure)
         outcome = dict(zip(regs, sel))
     else:
-        spec = dict(n=n, ops=case["prefix"] + [dict(cls="MeasureFock", regs=regs, pars=[])])
+        spec = dict(n=case["n"], ops=case["prefix"] + [dict(cls="MeasureFock", regs=true_regs, pars=[])])
         pick = case["pick"]
 
         def chooser(a, p, pick=pick):
@@ -1194,7 +1209,7 @@ def oracle_fock_case(ctx, sf, case):
             ctx.fail("fock-rng:calls", f"{len(calls)} calls of numpy.random.choice for one MeasureFock", rp)
             return
         # returned outcome per mode, read from samples_dict
-        outcome = {m: int(np.real(res.samples_dict[m][-1][0])) for m in regs}
+        outcome = {posn[m]: int(np.real(res.samples_dict[m][-1][0])) for m in true_regs}
         want, p = m6.fock_project(rho0, n, outcome)
         pvec = calls[0]["p"]
         drawn = calls[0]["a"].index(chooser(calls[0]["a"], pvec))
@@ -1238,6 +1253,12 @@ def gen_fock_case(rng, selected):
     if not pure:
         ops_.append(dict(cls="LossChannel", regs=[rng.randrange(n)], pars=[0.7]))
     case = dict(n=n, cutoff=D, regs=regs, pure=pure, prefix=ops_)
+    if n >= 3 and rng.random() < 0.35:           # delete a mode that is not the highest: later indices != positions
+        d = rng.randrange(n - 1)
+        case["deleted"] = [d]
+        case["prefix"] = ops_ + [dict(cls="Del", regs=[d], pars=[])]
+        case["regs"] = [m for m in regs if m != d] or [n - 1]
+        regs = case["regs"]
     if selected:
         case["select"] = [rng.randint(0, 2) for _ in regs]
     else:
